@@ -5,6 +5,7 @@ mod derive;
 mod field;
 mod ggm;
 mod oprf;
+mod protocol;
 mod shamir;
 mod srv;
 mod star;
@@ -38,7 +39,9 @@ fn main() {
     "oprf-check" => oprf::oprf_check(&a),
     "dleq-replay" => oprf::dleq_replay(&a),
     "nonce-check" => oprf::nonce_check(&a),
+    "proof-complete" => oprf::proof_complete(&a),
     "serde-check" => oprf::serde_check(&a),
+    "protocol-replay" => protocol::replay(&a),
     "srv-replay" => srv::replay(&a),
     "srv-record" => srv::record(&a),
     "recover-replay" => star::recover_replay(&a),
